@@ -293,6 +293,13 @@ NthSites == { <<"q", "items", "0">>, <<"q", "items", "1">>, <<"q", "items", "2">
               <<"a1", "kids", "0">> }
 FamFaultsNth == { Case("faultnth", d, "", NoVars, {s}) : d \in NthDocs, s \in NthSites }
                    \cup { Case("faultnth", ds[1], "", NoVars, {ds[2], ds[3]}) : ds \in UNION { {d} \X NthSites \X CallSites(d) : d \in NthDocs } }
+\* one invocation of a resolver made to fail where the same resolver is invoked more than once for one position (the response
+\* key written twice, again through an inline fragment, again through a spread): the position is null whichever invocation
+\* fails, with one error; the other positions keep their values
+CallDocs == { Doc1(<<FS("", top, <<F("", "name")>>), FS("", top, <<F("", "n")>>), F("", "title")>>) : top \in {"a", "items"} }
+  \cup { Doc1(<<F("", "title"), FS("", "a", <<F("", "n")>>), Inl("Query", <<F("", "title"), FS("", "a", <<F("", "name")>>)>>)>>) }
+  \cup { DocF(<<FS("", "items", <<F("", "name")>>), Spr("F"), F("t", "title")>>, <<Frg("F", "Query", <<FS("", "items", <<F("", "n")>>), F("t", "title")>>)>>) }
+FamFaultsCall == { Case("faultcall", d, "", NoVars, {<<"q", fld, "call", k>>}) : d \in CallDocs, fld \in {"a", "items", "title"}, k \in {"1", "2"} }
 FamFaults0 == { Case("fault0", d, "", NoVars, {}) : d \in FaultDocs }
 FamFaults2 == { Case("fault2", ds[1], "", NoVars, {ds[2], ds[3]}) :
                   ds \in UNION { {d} \X CallSites(d) \X CallSites(d) : d \in FaultDocs } }
@@ -444,5 +451,5 @@ Families ==
   [ flat |-> FamFlat, nest1 |-> FamNest1, nest2 |-> FamNest2, nest3 |-> FamNest3,
     inline1 |-> FamInline1, inline2 |-> FamInline2, spread |-> FamSpread, dups |-> FamDups,
     args |-> FamArgs, ops |-> FamOps, dirs |-> FamDirs, dirvars |-> FamDirVars, dirnull |-> FamDirNull, defect |-> FamDefects,
-    inputs |-> FamInputs, mixed |-> FamMixed, abstract |-> FamAbstract, absops |-> FamAbsOps, forms |-> FamForms, defectabs |-> FamDefectsAbs, faultnth |-> FamFaultsNth, fault0 |-> FamFaults0, fault1 |-> FamFaults1, fault2 |-> FamFaults2 ]
+    inputs |-> FamInputs, mixed |-> FamMixed, abstract |-> FamAbstract, absops |-> FamAbsOps, forms |-> FamForms, defectabs |-> FamDefectsAbs, faultnth |-> FamFaultsNth, faultcall |-> FamFaultsCall, fault0 |-> FamFaults0, fault1 |-> FamFaults1, fault2 |-> FamFaults2 ]
 =============================================================================
